@@ -36,6 +36,8 @@ CLAIMED = {
          "bounds: payload <= 9 bytes available on the connection; base peer commands only (version, verack, getaddr, addr, ping, pong): the elanet / dpos createMessage switches and their payload decoders are C02's subject; SHA-256 uninterpreted with collision-freedom; Header (de)serialization goes through the engine's fixed-layout model of encoding/binary; the block send cache is not encoded; clock = arbitrary instants"),
  "C36": ("4 C36", "httpjsonrpc.checkAuth with symbolic configured user/password (0..2 bytes each) and a symbolic Authorization header of the right length, one shorter or one longer, or absent: accepted <=> no credentials configured or header == 'Basic '+base64(user:pass) (base64 re-implemented in the harness; SHA-256 collision-free by assumption). Every handler that sets node settings, mines, submits transactions or uses wallet data (12 handlers, classes written from the statement) answers InvalidMethod before doing anything else whenever the configured service level (5 names + an unrecognised one) does not permit its class.",
          "bounds: credentials <= 2+2 bytes; clientAllowed (net.SplitHostPort / ParseIP / IsLoopback string parsing) is NOT encoded — the IP filter clause is outside the claim; the handler list is the one in the harness (a newly added privileged handler without a gate is not detected); decided by cvc5 for the auth harness"),
+ "C24": ("4 C24", "Two evaluations of Arbiters.getCandidateIndexAtRandom on the same chain data (symbolic previous-block nonce, enumerated counts) must agree, where every draw from the process-global math/rand source is an arbitrary value (any other goroutine may draw or reseed between two accesses) and a locally seeded generator is a deterministic uninterpreted function of its seed. Two rankings by getSortedProducers of 3 producers with arbitrary votes (ties allowed) and distinct node keys, each under a solver-chosen iteration order of the producer map, must be identical and descending by votes.",
+         "bounds: 3 producers; counts enumerated; native replay of a schedule / map-order violation is by repetition (goroutines hammering rand.Int for 5 s; up to 500 re-rankings) and therefore probabilistic; getRandomDposV2Producers, getSortedProducersDposV2 (float vote rights) and the statement's call-graph clause ('all consensus code paths') are not decided"),
 }
 
 # thorough tier (deeper bounds + every unsat cross-checked with z3 5.1.0) is
@@ -57,7 +59,6 @@ NA = {
  "C21": "State.processTransactions over full blocks: too large to execute symbolically; self-contained sub-state harness not built",
  "C22": "same as C21 for cr/state",
  "C23": "checkpoint Serialize/Deserialize round trip over maps of producers: encodable in principle, not built in this session",
- "C24": "needs a model of math/rand global state and map iteration order across runs; not built",
  "C27": "reward distribution is float64 accumulation over vote maps: sum-of-floor queries are unknown >300 s in all three solvers (probed), so no sound bound can be stated",
  "C28": "history property over State; check-arithmetic kernel not built in this session",
  "C29": "history property over proposal manager; not built in this session",
